@@ -1141,17 +1141,24 @@ func c41runCur(r *vrun.Run, c c41curCase) {
 		}
 	}
 	where := "client"
-	if watched {
-		where = "dedicated"
-		werr := NewAdapter(cl).Watch(ctx, func(tx Tx) error {
-			run(tx)
-			return err
-		}, "a")
-		if werr != err {
-			fail("Compat.Watch: error of fn not returned unchanged", "got %v want %v", werr, err)
+	pan, site := vrun.Catch(func() {
+		if watched {
+			where = "dedicated"
+			werr := NewAdapter(cl).Watch(ctx, func(tx Tx) error {
+				run(tx)
+				return err
+			}, "a")
+			if werr != err {
+				fail("Compat.Watch: error of fn not returned unchanged", "got %v want %v", werr, err)
+			}
+		} else {
+			run(NewAdapter(cl))
 		}
-	} else {
-		run(NewAdapter(cl))
+	})
+	if pan != nil {
+		fail(fmt.Sprintf("%s: panic while queueing/executing curated commands (%s)", tn, site), "panic: %v", pan)
+		r.Outcome("panic")
+		return
 	}
 
 	total := n
